@@ -48,6 +48,16 @@ def run(tier, rep):
     pool = stream_corpus.payload_pool(bundle, "c17", 80)
     from .. import msm_corpus
 
+    from .. import gen_messages
+
+    bigpool = []
+    for ident in ("1004", "1012", "1077", "1097", "1127", "4076_201", "1029", "4076_026"):
+        if ident in bundle["defs"]:
+            bp, _ = gen_messages.build(ident, bundle, rnd, values="random", count="max", mask="dense")
+            if bp and len(bp) > 300:
+                bigpool.append(bp)
+    bigpool.append(bytes([0x7D, 0x00]) + bytes(rnd.randrange(256) for _ in range(1021)))
+    bigpool.append(bytes([0x7D, 0x10]) + bytes(rnd.randrange(256) for _ in range(998)))
     msmpool = [pl for _, shape, pl, enc in msm_corpus.build_all(bundle, "c17", True) if shape in ("manysat", "dense", "random") and enc.ints.get("NCell", 0) > 0 and len(pl) < 500]
     tr = fe.Traces(rep)
     corp = de.Corpus(rep, bundle)
@@ -57,7 +67,8 @@ def run(tier, rep):
         items = []
         for _ in range(rnd.randint(4, 10)):
             r = rnd.random()
-            pl = rnd.choice(msmpool) if rnd.random() < 0.35 else rnd.choice(pool)
+            x = rnd.random()
+            pl = rnd.choice(msmpool) if x < 0.3 else rnd.choice(bigpool) if x < 0.45 else rnd.choice(pool)
             if r < 0.5:
                 items.append(("frame", frame_of(pl), pl))
             elif r < 0.75:
